@@ -172,23 +172,23 @@ EXTRA = {
     "C08": "Further phase 'stoprace' (see C05). When wedged: abandoned channels on producer batches, deep-backlog and quiet-wedge shapes, Flush callers queued behind the wedge (must return, and with an error after a deadline error). Abandoned empty/unmarshalable batches too.",
     "C10": "Generator modes: mixed limits, exactly one binding limit, and a trickle of small/empty requests inside every time window; answers are time-stamped by live receivers and bounded from each batch's own acceptance. Also a hum of empty requests faster than any polling period, and skewed multi-partition batches for the row-group byte limit; the obligation is re-derived from the still-unanswered batches when the buffer model may be stale.",
     "C13": "Single-flight is checked with three further Merge calls made one after the other while the first is gated. A third of the cases run the Merge against a MetaStore that is the in-memory DataStore itself; every committed output must be a whole bloom file.",
-    "C16": "Sequences include redundant Close/Abort/Write calls on a writer whose Close already succeeded. Also a Close made to fail before publishing (its .tmp removed) whose owner aborts and tombstones only later. Payloads up to 300 KB written as a tiny first chunk plus large chunks.",
+    "C16": "Sequences include redundant Close/Abort/Write calls on a writer whose Close already succeeded. Also a Close made to fail before publishing (its .tmp removed) whose owner aborts and tombstones only later. Payloads up to 300 KB written as a tiny first chunk plus large chunks. A third of the cases root the store at a path whose components contain .dat/.tmp.",
     "C19": "Further phase 'transplant': a block's row data replaced by a complete valid compressed stream of identical sizes written to another store. Hostile metadata includes cooperating pairs (a negative section size plus an extent beyond the file). Further phase 'metahostile': hostile filter section extents in MetaStore-held metadata for one of several healthy files.",
     "C20": "Scripts include 2-4 concurrent Close calls and a settle stall before a deliberate Close when faults are planned. Also a slow walk through buffered rows with a concurrent Close (repeated), and a world with a malformed block whose scan fails after its rows were matched. Store errors may wrap a context error of their own; 60-90 file worlds back the pipeline up to the candidate-pulling stage before Close/cancel.",
     "C21": "Handle and iterator accounting is also snapshotted at the return of each individual Close call (sequential, asynchronous, or one of several concurrent ones). Further phase 'contended': 2-6 queries on one engine with MaxQueryConcurrency 1-3, slow handle Close, failing reads, then the full accounting and the budget recheck. Read handles whose Close reports an error.",
     "C24": "Further phase 'transient': the same expectations with a one-shot OpenFile/Read/Seek failure inside about half of the queries. External-writer files may carry blocks without a filter section next to blocks with one.",
     "C25": "Further phase 'shared': one expression value (constructor-built, JSON-decoded, append-built with spare capacity) used for several builder chains and constructor calls. Constructor calls may receive one caller-owned operand slice that is re-filled for the next call.",
     "C26": "Further phase 'volume': 250 000 - 1 000 000 (thorough 3 000 000) distinct entries per block at rates down to 1e-12. The text is stored under 1-8 fields; a merge may be run by a second engine with a different rate. Merges may contain a block that is copied verbatim (its recorded rate must stay the writing engine's).",
-    "C09": "A quarter of the cases: every Write/Close fails and the store hangs inside the failed flush's cleanup (Abort/TombstoneFile). A third of the cases use a partition function whose ids never repeat.",
+    "C09": "A quarter of the cases: every Write/Close fails and the store hangs inside the failed flush's cleanup (Abort/TombstoneFile). A third of the cases use a partition function whose ids never repeat. Some cases add producers of empty batches beside trickling producers of rows.",
     "C12": "MaxFileSize is also set, per merge, at (or one byte under) what two real files add up to.",
-    "C11": "Shares the generated merges of C12 (MaxFileSize at real pair boundaries). External-writer files may be compressed (snappy stream / zstd), with or without a row data hash.",
+    "C11": "Shares the generated merges of C12 (MaxFileSize at real pair boundaries). External-writer files may be compressed (snappy stream / zstd), with or without a row data hash. Some merges are preceded by a faulted Merge on the same engine instance.",
     "C14": "Span mode also with 66-140 files and an early pause, and with the querying engine started or already stopped. Window mode: the Merge's context may be cancelled at a store call, and a quiet probe query follows every step.",
     "C15": "Histories include partition groups (several merge groups per Merge) and merges failing in a later group. A multi-group merge's context may be cancelled at a store call.",
-    "C17": "Further phases: 'faulted' (histories with one-shot store failures inside) and 'shapes' (extreme but legal block shapes: compression ratios in the thousands, one 1.5 MB row, empty rows).",
-    "C18": "Further phases 'faulted' and 'shapes' (as C17).",
-    "C23": "The fault phase also queries the multi-chunk filter world with an expression that rules out most blocks, and a world with a malformed block.",
+    "C17": "Further phases: 'faulted' (histories with one-shot store failures inside) and 'shapes' (extreme but legal block shapes: compression ratios in the thousands, one 1.5 MB row, empty rows). Further phase 'concurrent': ingest+flush steps carried out while Merge runs (slowed store writes); faulted histories retry a failed merge on the same engine.",
+    "C18": "Further phases 'faulted' and 'shapes' (as C17). Further phase 'concurrent' (see C17).",
+    "C23": "The fault phase also queries the multi-chunk filter world with an expression that rules out most blocks, and a world with a malformed block. Every second query of the clean phases has Stats polled while in flight.",
     "C27": "Scenarios include double faults (a failure and the failure of the cleanup it provokes) aimed at a Merge that has a group to commit.",
-    "C07": "40% of the runs end with Stop instead of a final Flush while flushes are still queued.",
+    "C07": "40% of the runs end with Stop instead of a final Flush while flushes are still queued. A third of the schedules contain one-shot store failures with a slow Abort/TombstoneFile, so failed flushes owe their error answers while later requests queue behind them.",
     "C22": "15% of the cases use a file whose block filter region spans several 4 MiB chunks, queried with bloom conditions on a budget of 1-2.",
 }
 
